@@ -30,6 +30,14 @@ def main(argv):
         if not os.path.exists(patch) or (want and d not in want):
             continue
         pid = d.split("_")[0]
+        meta_path = os.path.join(VERIF, "seeded", d, "meta.json")
+        meta = json.load(open(meta_path)) if os.path.exists(meta_path) else {}
+        if meta.get("neutralised_by_fix"):
+            # the change no longer violates the property on the repaired tree (its own demonstration passes): nothing to catch
+            results[d] = {"property": pid, "status": "neutralised by fix %s (the seeded change no longer breaks the property)" % meta["neutralised_by_fix"]}
+            print(d, results[d]["status"])
+            json.dump(results, open(out_path, "w"), indent=1, sort_keys=True)
+            continue
         shutil.rmtree(SCRATCH, ignore_errors=True)
         os.makedirs(SCRATCH)
         sh("cp -r /repo/dagrt /repo/test /repo/setup.py /repo/setup.cfg %s/ 2>/dev/null" % SCRATCH)
